@@ -11,26 +11,86 @@ Require Import Lia.
 Local Open Scope nat_scope.
 
 (* ------------------------------------------------------------- Part A *)
-Theorem parse_consumes_all_lemma : forall ts p,
-  parse_program ts = Some p -> parse_prefix ts = POk p [].
+(* the search over the readings of the undecided '?' tokens *)
+Lemma search_sound : forall A (run : list nat -> pres A) cands t0 a r,
+  search run cands t0 = POk a r -> exists terns, run terns = POk a r.
 Proof.
-  unfold parse_program; intros ts p H.
-  destruct (parse_prefix ts) as [q r | |]; try discriminate.
-  destruct r; try discriminate. congruence.
+  intros A run. induction cands as [|p cands IH]; intros t0 a r H.
+  - exists t0. exact H.
+  - cbn [search] in H. destruct (search run cands t0) as [a' r'| |] eqn:E.
+    + inversion H; subst. apply (IH t0 a r E).
+    + apply (IH (p :: t0) a r H).
+    + discriminate.
 Qed.
 
-Theorem leftover_is_rejected : forall ts p t r,
-  parse_prefix ts = POk p (t :: r) -> parse_program ts = None.
-Proof. unfold parse_program; intros ts p t r H; rewrite H; reflexivity. Qed.
-
-Theorem accept_iff_exhausted : forall ts p,
-  parse_program ts = Some p <-> parse_prefix ts = POk p [].
+Lemma search_const : forall A (run : list nat -> pres A) cands t0 a r,
+  (forall terns, run terns = POk a r) -> search run cands t0 = POk a r.
 Proof.
-  split; [apply parse_consumes_all_lemma|].
-  unfold parse_program; intros H; rewrite H; reflexivity.
+  intros A run. induction cands as [|p cands IH]; intros t0 a r H.
+  - apply H.
+  - cbn [search]. rewrite (IH t0 a r H). reflexivity.
+Qed.
+
+Lemma search_fail : forall A (run : list nat -> pres A) cands t0,
+  (forall terns, run terns = PFail) -> search run cands t0 = PFail.
+Proof.
+  intros A run. induction cands as [|p cands IH]; intros t0 H.
+  - apply H.
+  - cbn [search]. rewrite (IH t0 H). apply IH. exact H.
+Qed.
+
+Lemma search_none : forall A (run : list nat -> pres A) cands t0,
+  (forall terns a r, run terns <> POk a r) -> forall a r, search run cands t0 <> POk a r.
+Proof.
+  intros A run cands t0 H a r E. destruct (search_sound A run cands t0 a r E) as [terns Ht].
+  apply (H terns a r Ht).
+Qed.
+
+Lemma whole_ok : forall A (x : pres A) a r, whole x = POk a r -> x = POk a [] /\ r = [].
+Proof.
+  intros A x a r H. destruct x as [a' r'| |]; try discriminate.
+  destruct r'; try discriminate. inversion H; subst. split; reflexivity.
+Qed.
+
+(* acceptance means: under some reading of the undecided '?' tokens the
+   program read from the front is the whole token list *)
+Theorem parse_consumes_all_lemma : forall ts p,
+  parse_program ts = Some p ->
+  exists terns, parse_prefix_with (choice_of terns) ts = POk p [].
+Proof.
+  unfold parse_program, parse_query; intros ts p H.
+  destruct (search _ _ _) as [q r | |] eqn:E; try discriminate. inversion H; subst.
+  destruct (search_sound _ _ _ _ _ _ E) as [terns Ht].
+  exists terns. apply whole_ok in Ht. tauto.
+Qed.
+
+(* if every reading that reads a program from the front leaves tokens over,
+   the query is ill-formed *)
+Theorem leftover_is_rejected : forall ts,
+  (forall ch p r, parse_prefix_with ch ts = POk p r -> r <> []) ->
+  parse_program ts = None.
+Proof.
+  intros ts H. unfold parse_program, parse_query.
+  destruct (search _ _ _) as [q r | |] eqn:E; try reflexivity.
+  destruct (search_sound _ _ _ _ _ _ E) as [terns Ht].
+  apply whole_ok in Ht. destruct Ht as [Ht _].
+  exfalso. apply (H _ _ _ Ht). reflexivity.
+Qed.
+
+(* if all readings agree, that is the result *)
+Theorem all_readings_agree : forall ts p,
+  (forall ch, parse_prefix_with ch ts = POk p []) -> parse_program ts = Some p.
+Proof.
+  intros ts p H. unfold parse_program, parse_query.
+  rewrite (search_const _ _ _ _ p []); [reflexivity|].
+  intros terns. rewrite H. reflexivity.
 Qed.
 
 (* ------------------------------------------------------------- Part B *)
+Section Ch.
+(* everything below holds for every oracle [ch] *)
+Variable ch : nat -> bool.
+
 Definition hd_kind (ts : toks) : option kind :=
   match ts with (k, _) :: _ => Some k | [] => None end.
 
@@ -65,27 +125,27 @@ Proof. reflexivity. Qed.
    is in front) *)
 Lemma descend1 : forall f tb lv ts e rest,
   lv <= 11 ->
-  parse_at (S f) tb (S lv) ts = POk e rest ->
+  parse_at ch (S f) tb (S lv) ts = POk e rest ->
   stops lv rest -> (lv = 4 -> not_unop ts) ->
-  parse_at (S (S f)) tb lv ts = POk e rest.
+  parse_at ch (S (S f)) tb lv ts = POk e rest.
 Proof.
   intros f tb lv ts e rest Hle H Hs Hu.
   destruct lv as [|[|[|[|[|[|[|[|[|[|[|[|lv]]]]]]]]]]]]; try lia;
-    try (match goal with |- parse_at _ _ ?l _ = _ =>
-           change (parse_at (S (S f)) tb l ts) with
-             (bindr (parse_at (S f) tb (S l) ts) (bin_loop (parse_at (S f)) tb (S f) l)) end;
+    try (match goal with |- parse_at ch _ _ ?l _ = _ =>
+           change (parse_at ch (S (S f)) tb l ts) with
+             (bindr (parse_at ch (S f) tb (S l) ts) (bin_loop (parse_at ch (S f)) tb (S f) l)) end;
          rewrite H, bindr_ok; apply bin_loop_stop; exact Hs).
   - (* 1 *)
-    change (parse_at (S (S f)) tb 1 ts) with
-      (bindr (parse_at (S f) tb 2 ts) (tern_loop (parse_at (S f)) tb (S f))).
+    change (parse_at ch (S (S f)) tb 1 ts) with
+      (bindr (parse_at ch (S f) tb 2 ts) (tern_loop (parse_at ch (S f)) tb (S f))).
     rewrite H, bindr_ok. apply tern_loop_stop; exact Hs.
   - (* 4 *)
     specialize (Hu eq_refl). destruct ts as [|[k t] r]; [destruct Hu|].
     simpl in Hu.
-    change (parse_at (S (S f)) tb 4 ((k, t) :: r)) with
+    change (parse_at ch (S (S f)) tb 4 ((k, t) :: r)) with
       (match unop_of k with
-       | Some o => mapr (EUn o) (parse_at (S f) tb 4 r)
-       | None => parse_at (S f) tb 5 ((k, t) :: r)
+       | Some o => mapr (EUn o) (parse_at ch (S f) tb 4 r)
+       | None => parse_at ch (S f) tb 5 ((k, t) :: r)
        end).
     rewrite Hu. exact H.
 Qed.
@@ -93,10 +153,10 @@ Qed.
 (* several levels down *)
 Lemma descend : forall k f tb lv ts e rest,
   lv + k <= 12 ->
-  parse_at (S f) tb (lv + k) ts = POk e rest ->
+  parse_at ch (S f) tb (lv + k) ts = POk e rest ->
   (forall l, lv <= l < lv + k -> stops l rest) ->
   (lv <= 4 < lv + k -> not_unop ts) ->
-  parse_at (S f + k) tb lv ts = POk e rest.
+  parse_at ch (S f + k) tb lv ts = POk e rest.
 Proof.
   induction k as [|k IH]; intros f tb lv ts e rest Hle H Hs Hu.
   - rewrite Nat.add_0_r in *. exact H.
@@ -113,10 +173,10 @@ Qed.
 (* from the primary level to level [lv] *)
 Lemma from_primary : forall f tb lv ts e rest,
   lv <= 12 ->
-  primary (parse_at f) tb f ts = POk e rest ->
+  primary ch (parse_at ch f) tb f ts = POk e rest ->
   (forall l, lv <= l < 12 -> stops l rest) ->
   (lv <= 4 -> not_unop ts) ->
-  parse_at (S f + (12 - lv)) tb lv ts = POk e rest.
+  parse_at ch (S f + (12 - lv)) tb lv ts = POk e rest.
 Proof.
   intros f tb lv ts e rest Hle H Hs Hu.
   apply descend; try lia.
@@ -125,79 +185,27 @@ Proof.
   - intros Hl. apply Hu; lia.
 Qed.
 
-(* a closing parenthesis starts no expression *)
-Lemma primary_rparen : forall pe tb f t r, primary pe tb f ((KRParen, t) :: r) = PFail.
-Proof.
-  intros. unfold primary.
-  destruct r as [|[k2 t2] r2]; [reflexivity|]. destruct k2; reflexivity.
-Qed.
-
-Lemma fail_up1 : forall f tb lv ts,
-  lv <= 11 -> parse_at (S f) tb (S lv) ts = PFail -> (lv = 4 -> not_unop ts) ->
-  parse_at (S (S f)) tb lv ts = PFail.
-Proof.
-  intros f tb lv ts Hle H Hu.
-  destruct lv as [|[|[|[|[|[|[|[|[|[|[|[|lv]]]]]]]]]]]]; try lia;
-    try (match goal with |- parse_at _ _ ?l _ = _ =>
-           change (parse_at (S (S f)) tb l ts) with
-             (bindr (parse_at (S f) tb (S l) ts) (bin_loop (parse_at (S f)) tb (S f) l)) end;
-         rewrite H; reflexivity).
-  - change (parse_at (S (S f)) tb 1 ts) with
-      (bindr (parse_at (S f) tb 2 ts) (tern_loop (parse_at (S f)) tb (S f))).
-    rewrite H; reflexivity.
-  - specialize (Hu eq_refl). destruct ts as [|[k t] r]; [destruct Hu|].
-    simpl in Hu.
-    change (parse_at (S (S f)) tb 4 ((k, t) :: r)) with
-      (match unop_of k with
-       | Some o => mapr (EUn o) (parse_at (S f) tb 4 r)
-       | None => parse_at (S f) tb 5 ((k, t) :: r)
-       end).
-    rewrite Hu. exact H.
-Qed.
-
-Lemma fail_up : forall k f tb lv ts,
-  lv + k <= 12 -> parse_at (S f) tb (lv + k) ts = PFail -> not_unop ts ->
-  parse_at (S f + k) tb lv ts = PFail.
-Proof.
-  induction k as [|k IH]; intros f tb lv ts Hle H Hu.
-  - rewrite Nat.add_0_r in *. exact H.
-  - replace (S f + S k) with (S (S f) + k) by lia.
-    apply IH; try lia; try exact Hu.
-    replace (lv + S k) with (S (lv + k)) in H by lia.
-    apply fail_up1; try lia; auto.
-Qed.
-
-Lemma rparen_fail : forall f tb t r, parse_at (12 + f) tb 1 ((KRParen, t) :: r) = PFail.
-Proof.
-  intros. replace (12 + f) with (S f + 11) by lia.
-  apply fail_up; try lia.
-  - change (parse_at (S f) tb (1 + 11) ((KRParen, t) :: r)) with
-      (primary (parse_at f) tb f ((KRParen, t) :: r)).
-    apply primary_rparen.
-  - reflexivity.
-Qed.
-
 (* ----------------------------------------------- unfolding equations *)
 Definition bin_level (l : nat) : bool :=
   match l with 2 | 3 | 5 | 6 | 7 | 8 | 9 | 10 | 11 => true | _ => false end.
 
 Lemma parse_at_bin : forall f tb l ts, bin_level l = true ->
-  parse_at (S f) tb l ts = bindr (parse_at f tb (S l) ts) (bin_loop (parse_at f) tb f l).
+  parse_at ch (S f) tb l ts = bindr (parse_at ch f tb (S l) ts) (bin_loop (parse_at ch f) tb f l).
 Proof.
   intros f tb l ts H.
   destruct l as [|[|[|[|[|[|[|[|[|[|[|[|l]]]]]]]]]]]]; try discriminate; reflexivity.
 Qed.
 Lemma parse_at_1 : forall f tb ts,
-  parse_at (S f) tb 1 ts = bindr (parse_at f tb 2 ts) (tern_loop (parse_at f) tb f).
+  parse_at ch (S f) tb 1 ts = bindr (parse_at ch f tb 2 ts) (tern_loop (parse_at ch f) tb f).
 Proof. reflexivity. Qed.
 Lemma parse_at_4 : forall f tb k t r,
-  parse_at (S f) tb 4 ((k, t) :: r) =
+  parse_at ch (S f) tb 4 ((k, t) :: r) =
   match unop_of k with
-  | Some o => mapr (EUn o) (parse_at f tb 4 r)
-  | None => parse_at f tb 5 ((k, t) :: r)
+  | Some o => mapr (EUn o) (parse_at ch f tb 4 r)
+  | None => parse_at ch f tb 5 ((k, t) :: r)
   end.
 Proof. reflexivity. Qed.
-Lemma parse_at_12 : forall f tb ts, parse_at (S f) tb 12 ts = primary (parse_at f) tb f ts.
+Lemma parse_at_12 : forall f tb ts, parse_at ch (S f) tb 12 ts = primary ch (parse_at ch f) tb f ts.
 Proof. reflexivity. Qed.
 Lemma bin_loop_S : forall pe tb g lv a ts,
   bin_loop pe tb (S g) lv a ts =
@@ -350,7 +358,7 @@ Proof. intros k H E; subst; discriminate. Qed.
 
 Lemma primary_var : forall pe tb g k x rest,
   is_varname k = true -> no_postfix rest ->
-  primary pe tb (S g) ((k, x) :: rest) = POk (EVar x) rest.
+  primary ch pe tb (S g) ((k, x) :: rest) = POk (EVar x) rest.
 Proof.
   intros pe tb g k x rest Hk H. unfold primary.
   rewrite call_start_no by (auto using varname_not_ns).
@@ -359,7 +367,7 @@ Qed.
 
 Lemma primary_param : forall pe tb g t0 k x rest,
   is_varname k = true -> no_postfix rest ->
-  primary pe tb (S g) ((KParam, t0) :: (k, x) :: rest) = POk (EParam x) rest.
+  primary ch pe tb (S g) ((KParam, t0) :: (k, x) :: rest) = POk (EParam x) rest.
 Proof.
   intros pe tb g t0 k x rest Hk H. unfold primary.
   assert (E : is_call_start ((KParam, t0) :: (k, x) :: rest) = false).
@@ -368,26 +376,26 @@ Proof.
 Qed.
 
 Lemma primary_none : forall pe tb g t rest,
-  no_postfix rest -> primary pe tb g ((KNone, t) :: rest) = POk ENone rest.
+  no_postfix rest -> primary ch pe tb g ((KNone, t) :: rest) = POk ENone rest.
 Proof.
   intros. unfold primary. rewrite call_start_no by (auto; discriminate). reflexivity.
 Qed.
 
 Lemma primary_bool : forall pe tb g t rest,
-  no_postfix rest -> primary pe tb g ((KBool, t) :: rest) = POk (EBool (bool_value t)) rest.
+  no_postfix rest -> primary ch pe tb g ((KBool, t) :: rest) = POk (EBool (bool_value t)) rest.
 Proof.
   intros. unfold primary. rewrite call_start_no by (auto; discriminate). reflexivity.
 Qed.
 
 Lemma primary_str : forall pe tb g t rest,
-  no_postfix rest -> primary pe tb g ((KString, t) :: rest) = POk (EStr (str_value t)) rest.
+  no_postfix rest -> primary ch pe tb g ((KString, t) :: rest) = POk (EStr (str_value t)) rest.
 Proof.
   intros. unfold primary. rewrite call_start_no by (auto; discriminate). reflexivity.
 Qed.
 
 Lemma primary_int : forall pe tb g t z rest,
   int_value t = Some z -> no_postfix rest ->
-  primary pe tb g ((KInt, t) :: rest) = POk (EInt z) rest.
+  primary ch pe tb g ((KInt, t) :: rest) = POk (EInt z) rest.
 Proof.
   intros pe tb g t z rest Hz H. unfold primary.
   rewrite call_start_no by (auto; discriminate). rewrite Hz.
@@ -408,26 +416,24 @@ Qed.
 Lemma no_postfix_closer : forall k t r, closer k = true -> no_postfix ((k, t) :: r).
 Proof. intros k t r H. destruct k; try discriminate; exact I. Qed.
 
+(* a '?' in front of [rest] is settled as the ternary's by the tokens after
+   it ([B] is the fuel margin of the lemmas below; it plays no role here) *)
 Definition q_ok (tb : bool) (B : nat) (rest : toks) : Prop :=
   match rest with
-  | (KQuestion, _) :: r =>
-      if tb then match r with (k, _) :: _ => follows_operand k = false | [] => False end
-      else forall f, B <= f -> tern_ahead (parse_at f) r = Some true
+  | (KQuestion, _) :: r => q_decide tb r = QTern
   | _ => True
   end.
 
 Lemma q_ok_closer : forall tb B k t r, closer k = true -> q_ok tb B ((k, t) :: r).
 Proof. intros tb B k t r H. destruct k; try discriminate; exact I. Qed.
 
-Lemma postfix_q_keep : forall tb B f e rest,
-  q_ok tb B rest -> B <= f -> postfix_q (parse_at f) tb e rest = POk e rest.
+Lemma postfix_q_keep : forall tb B e rest,
+  q_ok tb B rest -> postfix_q ch tb e rest = POk e rest.
 Proof.
-  intros tb B f e rest H Hf. unfold postfix_q.
+  intros tb B e rest H. unfold postfix_q.
   destruct rest as [|[k t] r]; [reflexivity|].
   destruct k; try reflexivity.
-  simpl in H. destruct tb.
-  - destruct r as [|[k2 t2] r2]; [destruct H|]. rewrite H. reflexivity.
-  - rewrite (H f Hf). reflexivity.
+  simpl in H. rewrite H. reflexivity.
 Qed.
 
 Definition stops_from (lv : nat) (rest : toks) : Prop := forall l, lv <= l < 12 -> stops l rest.
@@ -450,14 +456,10 @@ Proof.
 Qed.
 
 (* the error operator is taken in front of a closing parenthesis *)
-Lemma postfix_q_suppress : forall f tb e t t2 r,
-  postfix_q (parse_at (12 + f)) tb e ((KQuestion, t) :: (KRParen, t2) :: r)
+Lemma postfix_q_suppress : forall tb e t t2 r,
+  postfix_q ch tb e ((KQuestion, t) :: (KRParen, t2) :: r)
   = POk (ESuppress e) ((KRParen, t2) :: r).
-Proof.
-  intros. unfold postfix_q. destruct tb.
-  - reflexivity.
-  - unfold tern_ahead. rewrite rparen_fail. reflexivity.
-Qed.
+Proof. intros. reflexivity. Qed.
 
 (* ------------------------------------------------ binary operators *)
 (* the view of a binary node: level, operands, operator tokens, constructor *)
@@ -577,7 +579,7 @@ Section RoundTrip.
       apply andb_prop in P; destruct P as [P1 P2].
       apply andb_prop in P1. destruct P1 as [Pc Pt].
       assert (Ha : head_ok e1) by (apply IHe1; assumption).
-      destruct (head_of_left 1 e1 (tk KQuestion "?" :: match t with Some t' => wrap (needsx 2 t') (bodyx t') | None => [] end ++ tk KColon ":" :: wrap (needsx 2 e2) (bodyx e2)) 1 Ha (le_n _)) as (k & t0 & r & E & G & U).
+      destruct (head_of_left 1 e1 (tk KQuestion "?" :: match t with Some t' => wrap (needsx 2 t' || negb (then_safe t')) (bodyx t') | None => [] end ++ tk KColon ":" :: wrap (needsx 2 e2) (bodyx e2)) 1 Ha (le_n _)) as (k & t0 & r & E & G & U).
       exists k, t0, r. repeat split; auto; intros; try apply U; simpl in *; lia.
     - (* ECmp *)
       apply andb_prop in P; destruct P as [P1 P2].
@@ -652,8 +654,8 @@ Proof. reflexivity. Qed.
 
 Lemma primary_paren : forall pe tb g ts,
   hd_kind ts <> Some KFor ->
-  primary pe tb g (LP :: ts) =
-  bind_tok (pe false 1 ts) (is_rparen) (fun e r' => postfix_q pe tb e r').
+  primary ch pe tb g (LP :: ts) =
+  bind_tok (pe false 1 ts) (is_rparen) (fun e r' => postfix_q ch tb e r').
 Proof.
   intros pe tb g ts H. unfold primary, LP, tk.
   destruct ts as [|[k t] r]; [reflexivity|].
@@ -700,7 +702,7 @@ Section RT2.
   Definition GoodAt (e : expr) : Prop := forall tb lv rest B f,
       lv <= level e -> (tb = true -> 2 <= level e) ->
       ctx_ok tb B lv rest -> need e + B <= f ->
-      parse_at f tb lv (bodyx e ++ rest) = POk e rest.
+      parse_at ch f tb lv (bodyx e ++ rest) = POk e rest.
 
   Lemma body_hd_kind : forall e rest, printable e = true ->
     exists k, hd_kind (bodyx e ++ rest) = Some k /\ good_head k = true /\
@@ -724,7 +726,7 @@ Section RT2.
   Lemma wrapped_of_good : forall e, printable e = true -> GoodAt e ->
     forall tb lv rest B f,
       lv <= 12 -> ctx_ok tb B lv rest -> need e + 16 + B <= f ->
-      parse_at f tb lv (LP :: bodyx e ++ RP :: rest) = POk e rest.
+      parse_at ch f tb lv (LP :: bodyx e ++ RP :: rest) = POk e rest.
   Proof.
     intros e P G tb lv rest B f Hlv [Hs [Hn Hq]] Hf.
     assert (Hsz := size_pos e). unfold need in Hf.
@@ -732,7 +734,7 @@ Section RT2.
     apply from_primary; try lia.
     - rewrite primary_paren.
       + rewrite (G false 1 (RP :: rest) 0).
-        * unfold RP, tk. cbn [bind_tok is_rparen]. apply postfix_q_keep with (B := B); [exact Hq|lia].
+        * unfold RP, tk. cbn [bind_tok is_rparen]. apply postfix_q_keep with (B := B); exact Hq.
         * apply level_ge_1.
         * discriminate.
         * apply ctx_closer. reflexivity.
@@ -754,7 +756,7 @@ Section RT3.
   Definition GoodPr (e : expr) : Prop := forall tb lv m rest B f,
       lv <= m -> m <= 12 -> (tb = true -> 2 <= m) ->
       ctx_ok tb B lv rest -> need e + 16 + B <= f ->
-      parse_at f tb lv (prx m e ++ rest) = POk e rest.
+      parse_at ch f tb lv (prx m e ++ rest) = POk e rest.
 
   Lemma goodpr_of_good : forall e, printable e = true -> GoodAt e -> GoodPr e.
   Proof.
@@ -771,7 +773,7 @@ Section RT3.
   (* a primary that does not use the expression parser *)
   Lemma leaf_good : forall e ts,
     bodyx e = ts -> level e = 12 -> not_unop ts ->
-    (forall pe tb g rest, no_postfix rest -> primary pe tb (S g) (ts ++ rest) = POk e rest) ->
+    (forall pe tb g rest, no_postfix rest -> primary ch pe tb (S g) (ts ++ rest) = POk e rest) ->
     GoodAt e.
   Proof.
     intros e ts Hb Hl Hu Hp tb lv rest B f Hlv Htb [Hs [Hn Hq]] Hf.
@@ -870,14 +872,14 @@ Section RT4.
       is_close ck = true -> closer ck = true -> is_close KComma = false ->
       (forall k, good_head k = true -> is_close k = false) ->
       64 * sum_size es + 16 <= f -> List.length es < g ->
-      parse_seq (parse_at f) g is_close (pr_list extra es ++ (ck, ct) :: rest) = POk es rest.
+      parse_seq (parse_at ch f) g is_close (pr_list extra es ++ (ck, ct) :: rest) = POk es rest.
   Proof.
     induction es as [|x es IHes]; intros Hall is_close ck ct rest f g Hck Hcl Hcomma Hgh Hf Hg.
     - destruct g; [simpl in Hg; lia|]. cbn [pr_list app parse_seq]. rewrite Hck. reflexivity.
     - destruct g; [simpl in Hg; lia|].
       destruct (Hall x (or_introl eq_refl)) as [Hsx Px].
       assert (Hx : forall rest', ctx_ok false 0 1 rest' ->
-                 parse_at f false 1 (prx 1 x ++ rest') = POk x rest').
+                 parse_at ch f false 1 (prx 1 x ++ rest') = POk x rest').
       { intros rest' Hc. apply (IHpr x Hsx Px false 1 1 rest' 0 f); auto; try lia; try discriminate.
         unfold need. simpl in Hf. unfold sum_size in Hf. simpl in Hf. lia. }
       destruct es as [|y es'].
@@ -900,8 +902,8 @@ Section RT4.
   Lemma loop_step : forall L a b ops mk e tb rest B f g,
     bin_view e = Some (L, a, b, ops, mk) -> size b <= n -> printable b = true ->
     ctx_ok tb B (S L) rest -> need b + 16 + B <= f ->
-    bin_loop (parse_at f) tb (S g) L a (ops ++ prx (S L) b ++ rest)
-    = bin_loop (parse_at f) tb g L (mk a b) rest.
+    bin_loop (parse_at ch f) tb (S g) L a (ops ++ prx (S L) b ++ rest)
+    = bin_loop (parse_at ch f) tb g L (mk a b) rest.
   Proof.
     intros L a b ops mk e tb rest B f g V Hsb Pb Hc Hf.
     destruct (bin_view_spec extra e L a b ops mk V) as (_ & _ & HL & _ & Hop & _).
@@ -914,8 +916,8 @@ Section RT4.
   Lemma RL : forall m a, size a <= m -> m <= n -> printable a = true ->
     forall L tb rest B f, bin_level L = true -> ctx_ok tb B (S L) rest -> need a + 16 + B <= f ->
     exists c, c <= size a /\ forall g,
-      bindr (parse_at f tb (S L) (prx L a ++ rest)) (bin_loop (parse_at f) tb (g + c) L)
-      = bin_loop (parse_at f) tb g L a rest.
+      bindr (parse_at ch f tb (S L) (prx L a ++ rest)) (bin_loop (parse_at ch f) tb (g + c) L)
+      = bin_loop (parse_at ch f) tb g L a rest.
   Proof.
     induction m as [|m IHm]; intros a Hsa Hmn Pa L tb rest B f HL Hc Hf.
     { pose proof (size_pos a). lia. }
@@ -978,19 +980,58 @@ Proof.
   simpl in H. inversion H; subst. destruct k; try exact I. congruence.
 Qed.
 
-Lemma tern_ahead_ok : forall pe ts k t x r,
-  hd_kind ts = Some k -> k <> KColon -> pe false 1 ts = POk t ((KColon, x) :: r) ->
-  tern_ahead pe ts = Some true.
-Proof.
-  intros pe ts k t x r H HC Hp. unfold tern_ahead. rewrite Hp.
-  destruct ts as [|[k0 t0] r0]; [discriminate|].
-  simpl in H. inversion H; subst. destruct k; reflexivity.
-Qed.
-
 Lemma stops_question : forall l t r, 2 <= l -> stops l ((KQuestion, t) :: r).
 Proof.
   intros l t r H.
   destruct l as [|[|[|[|[|[|[|[|[|[|[|[|l]]]]]]]]]]]]; simpl; try lia; try reflexivity; exact I.
+Qed.
+
+(* the then-branch as the printer writes it *)
+Definition prt (extra : expr -> bool) (t : expr) : toks :=
+  wrap (needs extra 2 t || negb (then_safe t)) (body extra t).
+
+Lemma prt_hd_kind : forall extra t rest, printable t = true ->
+  exists k, hd_kind (prt extra t ++ rest) = Some k /\ good_head k = true.
+Proof.
+  intros extra t rest P. unfold prt, wrap.
+  destruct (needs extra 2 t || negb (then_safe t)).
+  - exists KLParen. split; reflexivity.
+  - destruct (body_hd_kind extra t rest P) as (k & Hk & Hg & _). exists k. split; auto.
+Qed.
+
+(* after "cond ?" the printed then-branch settles the ternary *)
+Lemma prt_decide : forall extra t tb x rest, printable t = true ->
+  q_decide tb (prt extra t ++ (KColon, x) :: rest) = QTern.
+Proof.
+  intros extra t tb x rest P. unfold prt, wrap.
+  destruct (needs extra 2 t || negb (then_safe t)) eqn:N; [reflexivity|].
+  apply Bool.orb_false_elim in N. destruct N as [_ N]. apply Bool.negb_false_iff in N.
+  destruct t; simpl in N; try discriminate; try reflexivity.
+  - (* EBool *) destruct b; reflexivity.
+  - (* EInt *) cbn [body]. apply Z.leb_le in N.
+    replace (z <? 0)%Z with false by (symmetry; apply Z.ltb_ge; lia). reflexivity.
+  - (* EVar *) cbn [body app]. unfold word_tok.
+    destruct (word_kind (runes_of x0)); try discriminate. reflexivity.
+Qed.
+
+Lemma prt_good : forall extra t, printable t = true -> GoodAt extra t ->
+  forall tb lv rest B f,
+    lv <= 2 -> ctx_ok tb B lv rest -> need t + 16 + B <= f ->
+    parse_at ch f tb lv (prt extra t ++ rest) = POk t rest.
+Proof.
+  intros extra t P G tb lv rest B f Hlv Hc Hf. unfold prt, wrap.
+  destruct (needs extra 2 t || negb (then_safe t)) eqn:N.
+  - cbn [app]. rewrite <- app_assoc. cbn [app].
+    apply (wrapped_of_good extra t P G tb lv rest B f); auto. lia.
+  - apply Bool.orb_false_elim in N. destruct N as [N _].
+    unfold needs in N. apply Bool.orb_false_elim in N. destruct N as [N _].
+    apply Nat.ltb_ge in N.
+    apply (G tb lv rest B f); try lia; auto.
+Qed.
+
+Lemma len_prt : forall extra t, List.length (body extra t) <= List.length (prt extra t).
+Proof.
+  intros. unfold prt, wrap. destruct (needs extra 2 t || negb (then_safe t)); simpl; [rewrite app_length; simpl; lia|lia].
 Qed.
 
 Section RT5.
@@ -1007,25 +1048,25 @@ Section RT5.
   Definition opt_size (t : option expr) : nat := match t with Some t' => size t' | None => 0 end.
   Definition opt_ok (t : option expr) : Prop :=
     match t with Some t' => size t' <= n /\ printable t' = true | None => True end.
-  Definition opt_toks (t : option expr) : toks := match t with Some t' => prx 2 t' | None => [] end.
+  Definition opt_toks (t : option expr) : toks := match t with Some t' => prt extra t' | None => [] end.
 
   Lemma tern_step : forall c t e0 rest B f g,
     opt_ok t -> size e0 <= n -> printable e0 = true ->
     ctx_ok false B 2 rest -> 64 * opt_size t + need e0 + 16 + B <= f ->
-    tern_loop (parse_at f) false (S g) c
+    tern_loop (parse_at ch f) false (S g) c
       (tk KQuestion "?" :: opt_toks t ++ tk KColon ":" :: prx 2 e0 ++ rest)
-    = tern_loop (parse_at f) false g (ECond c t e0) rest.
+    = tern_loop (parse_at ch f) false g (ECond c t e0) rest.
   Proof.
     intros c t e0 rest B f g Ht Hs0 P0 Hc Hf.
-    assert (He0 : parse_at f false 2 (prx 2 e0 ++ rest) = POk e0 rest).
+    assert (He0 : parse_at ch f false 2 (prx 2 e0 ++ rest) = POk e0 rest).
     { apply (IHpr extra n IH e0 Hs0 P0 false 2 2 rest B f); auto; try lia; try discriminate. }
     destruct t as [t'|]; cbn [opt_toks opt_size opt_ok] in *.
     - destruct Ht as [Hst Pt].
-      destruct (pr_hd_kind extra 2 t' (tk KColon ":" :: prx 2 e0 ++ rest) Pt) as (k & Hk & Hg & _).
+      destruct (prt_hd_kind extra t' (tk KColon ":" :: prx 2 e0 ++ rest) Pt) as (k & Hk & Hg).
       destruct (good_head_facts k Hg) as (_ & HC & _).
       unfold tk at 1.
       rewrite (tern_loop_S_hd _ _ _ _ _ _ k Hk HC).
-      rewrite (IHpr extra n IH t' Hst Pt true 1 2 (tk KColon ":" :: prx 2 e0 ++ rest) 0 f); auto; try lia.
+      rewrite (prt_good extra t' Pt (IH t' Hst Pt) true 1 (tk KColon ":" :: prx 2 e0 ++ rest) 0 f); auto; try lia.
       + unfold tk at 1. cbn [bind_tok is_colon]. rewrite He0. reflexivity.
       + apply ctx_closer. reflexivity.
       + unfold need. lia.
@@ -1046,27 +1087,21 @@ Section RT5.
     - intros l Hl. apply stops_question. lia.
     - destruct t as [t'|]; cbn [opt_toks opt_ok] in *.
       + destruct Ht as [_ Pt].
-        destruct (pr_hd_kind extra 2 t' (tk KColon ":" :: prx 2 e0 ++ rest) Pt) as (k & Hk & Hg & _).
+        destruct (prt_hd_kind extra t' (tk KColon ":" :: prx 2 e0 ++ rest) Pt) as (k & Hk & Hg).
         destruct (good_head_facts k Hg) as (_ & _ & HD & _).
         unfold tk at 1. apply (no_postfix_q _ _ k Hk HD).
       + exact I.
-    - unfold tk at 1. cbn [q_ok]. intros f Hf.
+    - unfold tk at 1. cbn [q_ok].
       destruct t as [t'|]; cbn [opt_toks opt_ok opt_size] in *.
-      + destruct Ht as [Hst Pt].
-        destruct (pr_hd_kind extra 2 t' (tk KColon ":" :: prx 2 e0 ++ rest) Pt) as (k & Hk & Hg & _).
-        destruct (good_head_facts k Hg) as (_ & HC & _).
-        apply (tern_ahead_ok _ _ k t' (bs ":") (prx 2 e0 ++ rest) Hk HC).
-        apply (IHpr extra n IH t' Hst Pt false 1 2 (tk KColon ":" :: prx 2 e0 ++ rest) 0 f); auto; try lia; try discriminate.
-        * apply ctx_closer. reflexivity.
-        * unfold need. lia.
+      + destruct Ht as [Hst Pt]. unfold tk. apply prt_decide. exact Pt.
       + reflexivity.
   Qed.
 
   Lemma RT : forall m c, size c <= m -> m <= n -> printable c = true ->
     forall rest B f, ctx_ok false B 2 rest -> need c + 16 + B <= f ->
     exists k, k <= size c /\ forall g,
-      bindr (parse_at f false 2 (prx 1 c ++ rest)) (tern_loop (parse_at f) false (g + k))
-      = tern_loop (parse_at f) false g c rest.
+      bindr (parse_at ch f false 2 (prx 1 c ++ rest)) (tern_loop (parse_at ch f) false (g + k))
+      = tern_loop (parse_at ch f) false g c rest.
   Proof.
     induction m as [|m IHm]; intros c Hsc Hmn Pc rest B f Hc Hf.
     { pose proof (size_pos c). lia. }
@@ -1106,7 +1141,7 @@ Proof.
 Qed.
 
 Lemma primary_lbrack : forall pe tb g t x,
-  primary pe tb g ((KLBrack, t) :: x) =
+  primary ch pe tb g ((KLBrack, t) :: x) =
   bindr (parse_seq pe g is_rbrack x) (fun es r' => with_path pe g (EArr es) r').
 Proof.
   intros. unfold primary.
@@ -1116,8 +1151,8 @@ Proof.
 Qed.
 
 Lemma primary_call : forall pe tb g f t2 x,
-  primary pe tb g ((KIdent, f) :: (KLParen, t2) :: x) =
-  bindr (mapr (ECall (upper_name f)) (parse_seq pe g is_rparen x)) (after_call pe tb g).
+  primary ch pe tb g ((KIdent, f) :: (KLParen, t2) :: x) =
+  bindr (mapr (ECall (upper_name f)) (parse_seq pe g is_rparen x)) (after_call ch pe tb g).
 Proof. intros. reflexivity. Qed.
 
 Section RT6.
@@ -1156,7 +1191,7 @@ Section RT6.
       { unfold need. lia. }
       rewrite parse_at_bin by exact HL.
       rewrite Hb. rewrite <- !app_assoc.
-      replace (bin_loop (parse_at f1) tb f1 L) with (bin_loop (parse_at f1) tb ((f1 - c) + c) L)
+      replace (bin_loop (parse_at ch f1) tb f1 L) with (bin_loop (parse_at ch f1) tb ((f1 - c) + c) L)
         by (f_equal; lia).
       rewrite Hcg.
       destruct (f1 - c) as [|g] eqn:Eg; [lia|].
@@ -1189,7 +1224,7 @@ Section RT7.
     set (f1 := f - (4 - lv) - 1).
     apply descend; try lia.
     - replace (lv + (4 - lv)) with 4 by lia.
-      assert (Ha : parse_at f1 tb 4 (prx 4 a ++ rest) = POk a rest).
+      assert (Ha : parse_at ch f1 tb 4 (prx 4 a ++ rest) = POk a rest).
       { apply (IHpr extra n IH a Hsa Pa tb 4 4 rest B f1); auto; try lia.
         - split; [|split]; auto. intros l Hl. apply Hs. lia.
         - unfold need, f1. lia. }
@@ -1216,9 +1251,9 @@ Section RT7.
       destruct (RT extra n IH (size c) c (le_n _) Hsc Pc
                   (tk KQuestion "?" :: opt_toks extra t ++ tk KColon ":" :: prx 2 e0 ++ rest)
                   (64 * opt_size t + 16) f1) as (k & Hks & Hkg).
-      { apply (cond_ctx extra n IH t e0 rest Ht). }
+      { apply (cond_ctx extra n t e0 rest Ht). }
       { unfold need, f1. lia. }
-      replace (tern_loop (parse_at f1) false f1) with (tern_loop (parse_at f1) false ((f1 - k) + k))
+      replace (tern_loop (parse_at ch f1) false f1) with (tern_loop (parse_at ch f1) false ((f1 - k) + k))
         by (f_equal; unfold f1; lia).
       rewrite Hkg.
       destruct (f1 - k) as [|g] eqn:Eg; [unfold f1 in Eg; lia|].
@@ -1261,7 +1296,7 @@ Section RT7.
   (* the call itself, whatever follows *)
   Lemma call_parsed : forall fn args rest f,
     call_ok fn = true -> all_ok args -> 64 * sum_size args + 16 <= f -> List.length args < f ->
-    mapr (ECall (upper_name fn)) (parse_seq (parse_at f) f is_rparen (pr_list extra args ++ RP :: rest))
+    mapr (ECall (upper_name fn)) (parse_seq (parse_at ch f) f is_rparen (pr_list extra args ++ RP :: rest))
     = POk (ECall fn args) rest.
   Proof.
     intros fn args rest f Hc Hall Hf Hlen.
@@ -1290,7 +1325,7 @@ Section RT7.
       pose proof (call_parsed fn args rest (S (f + lv - 14)) Hc Hall) as Hp.
       unfold RP, tk in Hp. rewrite Hp by lia. rewrite bindr_ok.
       unfold after_call. rewrite starts_path_none by exact Hn.
-      apply postfix_q_keep with (B := B); [exact Hq|lia].
+      apply postfix_q_keep with (B := B); exact Hq.
     - exact Hs.
     - intros _. unfold word_tok. rewrite Hk. reflexivity.
   Qed.
@@ -1322,7 +1357,7 @@ Section RT8.
 
   Lemma inner_paren : forall a rest f,
     size a <= n -> printable a = true -> need a + 12 <= f ->
-    parse_at (S f + 11) false 1 ((LP :: bodyx a ++ [RP]) ++ tk KQuestion "?" :: RP :: rest)
+    parse_at ch (S f + 11) false 1 ((LP :: bodyx a ++ [RP]) ++ tk KQuestion "?" :: RP :: rest)
     = POk (ESuppress a) (RP :: rest).
   Proof.
     intros a rest f Hsa Pa Hf.
@@ -1343,7 +1378,7 @@ Section RT8.
   Lemma inner_call : forall fn args rest f,
     call_ok fn = true -> all_ok n args -> 64 * sum_size args + 16 <= f -> List.length args < f ->
     12 <= f ->
-    parse_at (S (S f) + 11) false 1 (bodyx (ECall fn args) ++ tk KQuestion "?" :: RP :: rest)
+    parse_at ch (S (S f) + 11) false 1 (bodyx (ECall fn args) ++ tk KQuestion "?" :: RP :: rest)
     = POk (ESuppress (ECall fn args)) (RP :: rest).
   Proof.
     intros fn args rest f Hc Hall Hf Hlen H12.
@@ -1374,7 +1409,7 @@ Section RT8.
     apply from_primary; try lia.
     - cbn [app]. rewrite <- app_assoc. cbn [app].
       rewrite primary_paren.
-      + assert (Hin : parse_at f0 false 1 (inner a ++ tk KQuestion "?" :: RP :: rest)
+      + assert (Hin : parse_at ch f0 false 1 (inner a ++ tk KQuestion "?" :: RP :: rest)
                       = POk (ESuppress a) (RP :: rest)).
         { destruct a;
             try (replace f0 with (S (f0 - 12) + 11) by (unfold f0; lia);
@@ -1387,7 +1422,7 @@ Section RT8.
           apply inner_call; auto; try (unfold f0; lia).
           apply all_ok_of; [exact Pargs|lia]. }
         rewrite Hin. unfold RP at 1. unfold tk at 1. cbn [bind_tok is_rparen].
-        apply postfix_q_keep with (B := B); [exact Hq|unfold f0; lia].
+        apply postfix_q_keep with (B := B); exact Hq.
       + destruct a; try (cbn [inner]; unfold LP, tk; cbn [app hd_kind]; congruence).
         cbn [inner]. rewrite body_call. unfold word_tok.
         simpl in Pa. apply andb_prop in Pa. destruct Pa as [Pc _].
@@ -1441,7 +1476,7 @@ Qed.
    the expression, and with any fuel above a bound linear in the size *)
 Theorem parse_print_gen : forall extra e rest f,
   printable e = true -> ctx_ok false 0 1 rest -> 64 * size e + 16 <= f ->
-  parse_at f false 1 (pr extra 1 e ++ rest) = POk e rest.
+  parse_at ch f false 1 (pr extra 1 e ++ rest) = POk e rest.
 Proof.
   intros extra e rest f P Hc Hf.
   apply (goodpr_of_good extra e P (good_all extra (size e) e (le_n _) P) false 1 1 rest 0 f);
@@ -1451,7 +1486,7 @@ Qed.
 
 Theorem parse_print_expr_fuel : forall e f,
   printable e = true -> 64 * size e + 16 <= f ->
-  parse_at f false 1 (print_expr e) = POk e [].
+  parse_at ch f false 1 (print_expr e) = POk e [].
 Proof.
   intros e f P Hf. unfold print_expr.
   rewrite <- (app_nil_r (pr no_extra 1 e)).
@@ -1460,7 +1495,7 @@ Qed.
 
 Theorem parse_parens_fuel : forall extra e f,
   printable e = true -> 64 * size e + 16 <= f ->
-  parse_at f false 1 (pr extra 1 e) = parse_at f false 1 (print_expr e).
+  parse_at ch f false 1 (pr extra 1 e) = parse_at ch f false 1 (print_expr e).
 Proof.
   intros extra e f P Hf. rewrite parse_print_expr_fuel by assumption.
   rewrite <- (app_nil_r (pr extra 1 e)).
@@ -1483,7 +1518,7 @@ Qed.
 Theorem return_prefix : forall extra e s f g,
   printable e = true -> hd_kind (pr extra 1 e ++ s) <> Some KDistinct ->
   ctx_ok false 0 1 s -> 64 * size e + 16 <= f ->
-  parse_body (parse_at f) (S g) (ret_toks extra e ++ s) = POk (ret_prog e) s.
+  parse_body (parse_at ch f) (S g) (ret_toks extra e ++ s) = POk (ret_prog e) s.
 Proof.
   intros extra e s f g P Hd Hc Hf. unfold ret_toks, tk. cbn [app parse_body].
   destruct (pr_hd_kind extra 1 e s P) as (k & Hk & _).
@@ -1541,7 +1576,7 @@ Proof.
       destruct t as [t'|]; cbn [opt_toks size] in *;
         rewrite !app_length; cbn [List.length]; rewrite ?app_length; cbn [List.length].
       * pose proof (Hpr 1 e1 ltac:(lia) P1) as H1. pose proof (Hpr 2 e2 ltac:(lia) P3) as H3.
-        pose proof (Hpr 2 t' ltac:(lia) P2) as H2. lia.
+        pose proof (IHn t' ltac:(lia) P2) as H2. pose proof (len_prt extra t') as H2'. lia.
       * pose proof (Hpr 1 e1 ltac:(lia) P1) as H1. pose proof (Hpr 2 e2 ltac:(lia) P3) as H3. lia.
     + (* ECall *) apply andb_prop in P. destruct P as [Pc Pa].
       rewrite body_call. cbn [List.length]. rewrite app_length. cbn [List.length].
@@ -1561,31 +1596,50 @@ Proof.
   pose proof (size_le_len extra (size e) e (le_n _) P). lia.
 Qed.
 
-(* the central theorem, with the fuel the model uses: no OutOfFuel *)
-Theorem parse_print_expr_lemma : forall e, printable e = true -> parse_expr (print_expr e) = POk e [].
+End Ch.
+
+(* the central theorem, with the fuel the model uses: no OutOfFuel, and the
+   same result under EVERY reading of the undecided '?' tokens *)
+Theorem parse_print_expr_any : forall ch e, printable e = true ->
+  parse_expr_with ch (print_expr e) = POk e [].
 Proof.
-  intros e P. unfold parse_expr. apply parse_print_expr_fuel; [exact P|].
+  intros ch e P. unfold parse_expr_with. apply parse_print_expr_fuel; [exact P|].
   unfold fuel_for, print_expr. pose proof (size_le_pr no_extra 1 e P). lia.
 Qed.
 
-(* redundant parentheses, anywhere an expression stands, change nothing *)
-Theorem parse_parens_lemma : forall extra e, printable e = true ->
-  parse_expr (pr extra 1 e) = parse_expr (print_expr e).
+Theorem parse_print_expr_lemma : forall e, printable e = true -> parse_expr (print_expr e) = POk e [].
 Proof.
-  intros extra e P. rewrite parse_print_expr_lemma by exact P.
-  unfold parse_expr. rewrite <- (app_nil_r (pr extra 1 e)) at 2.
+  intros e P. unfold parse_expr. apply search_const.
+  intros terns. rewrite parse_print_expr_any by exact P. reflexivity.
+Qed.
+
+(* redundant parentheses, anywhere an expression stands, change nothing *)
+Theorem parse_parens_any : forall ch extra e, printable e = true ->
+  parse_expr_with ch (pr extra 1 e) = POk e [].
+Proof.
+  intros ch extra e P. unfold parse_expr_with.
+  rewrite <- (app_nil_r (pr extra 1 e)) at 2.
   apply parse_print_gen; [exact P|apply ctx_nil|].
   unfold fuel_for. pose proof (size_le_pr extra 1 e P). lia.
 Qed.
 
-(* RETURN e followed by tokens that cannot continue e: the program ends where
-   e ends and the rest is left over — so the query is rejected *)
-Theorem return_then_suffix : forall extra e s,
+Theorem parse_parens_lemma : forall extra e, printable e = true ->
+  parse_expr (pr extra 1 e) = parse_expr (print_expr e).
+Proof.
+  intros extra e P. rewrite parse_print_expr_lemma by exact P.
+  unfold parse_expr. apply search_const.
+  intros terns. rewrite parse_parens_any by exact P. reflexivity.
+Qed.
+
+(* RETURN e followed by tokens that cannot continue e: under every reading the
+   program ends where e ends and the rest is left over — so the query is
+   rejected *)
+Theorem return_then_suffix : forall ch extra e s,
   printable e = true -> hd_kind (pr extra 1 e ++ s) <> Some KDistinct ->
   ctx_ok false 0 1 s ->
-  parse_prefix (ret_toks extra e ++ s) = POk (ret_prog e) s.
+  parse_prefix_with ch (ret_toks extra e ++ s) = POk (ret_prog e) s.
 Proof.
-  intros extra e s P Hd Hc. unfold parse_prefix.
+  intros ch extra e s P Hd Hc. unfold parse_prefix_with.
   set (F := fuel_for (ret_toks extra e ++ s)).
   assert (HF : 64 * size e + 16 <= F /\ 1 <= F).
   { unfold F, fuel_for, ret_toks. cbn [app List.length]. rewrite app_length.
@@ -1599,8 +1653,12 @@ Theorem no_silent_suffix_lemma : forall extra e s,
   ctx_ok false 0 1 s ->
   parse_program (ret_toks extra e ++ s) = (match s with [] => Some (ret_prog e) | _ => None end).
 Proof.
-  intros extra e s P Hd Hc. unfold parse_program.
-  rewrite return_then_suffix by assumption. reflexivity.
+  intros extra e s P Hd Hc. unfold parse_program, parse_query.
+  destruct s as [|t r].
+  - rewrite (search_const _ _ _ _ (ret_prog e) []); [reflexivity|].
+    intros terns. rewrite return_then_suffix by assumption. reflexivity.
+  - rewrite search_fail; [reflexivity|].
+    intros terns. rewrite return_then_suffix by assumption. reflexivity.
 Qed.
 
 (* token classes that cannot continue an expression *)
@@ -1632,10 +1690,10 @@ Qed.
 Theorem no_silent_suffix_both : forall extra e s,
   printable e = true -> hd_kind (pr extra 1 e ++ s) <> Some KDistinct ->
   ctx_ok false 0 1 s ->
-  parse_prefix (ret_toks extra e ++ s) = POk (ret_prog e) s /\
+  (forall ch, parse_prefix_with ch (ret_toks extra e ++ s) = POk (ret_prog e) s) /\
   parse_program (ret_toks extra e ++ s) = match s with [] => Some (ret_prog e) | _ => None end.
 Proof.
   intros extra e s P Hd Hc. split.
-  - apply return_then_suffix; assumption.
+  - intros ch. apply return_then_suffix; assumption.
   - apply no_silent_suffix_lemma; assumption.
 Qed.
